@@ -404,6 +404,41 @@ def validate_runs(module, cfg, trace_file, work_dir, classify=None, max_rejectio
     return accepted, rejections, checked, wall
 
 
+SKIP_REJ_RE = re.compile(r'"RUN_REJECTED", (\d+)')
+SKIP_END_RE = re.compile(r'"TRACE_END", (\d+)')
+
+
+def validate_runs_skip(module, cfg, trace_file, timeout=1800, xmx="6g", tag="tvs"):
+    """One TLC pass over a multi-run trace with a skip-mode trace specification (deterministic trace specs only):
+    every run whose next event no action accepts is reported and abandoned, validation resumes at the next Reset.
+    Returns (accepted_runs, rejections, events_checked, wall) like validate_runs."""
+    events = read_ndjson(trace_file)
+    runs = split_runs(events)
+    starts = []
+    n = 0
+    for r in runs:
+        starts.append(n)
+        n += len(r)
+    r = tlc(module, cfg, workers=1, timeout=timeout, xmx=xmx, env_extra={"TRACE": trace_file},
+            jvm_props=["tlc2.tool.queue.IStateQueue=StateDeque"], xss="1g", tag=tag)
+    if r.timed_out:
+        raise ToolError("trace validation timed out on %s" % trace_file)
+    m = SKIP_END_RE.search(r.output)
+    if r.rc != 0 or not m or int(m.group(1)) != len(events):
+        log(r.output[-5000:])
+        raise ToolError("skip-mode trace validation did not reach the end of %s (rc=%s)" % (trace_file, r.rc))
+    import bisect
+    rejections = []
+    for m in SKIP_REJ_RE.finditer(r.output):
+        line = int(m.group(1))          # 1-based
+        ri = bisect.bisect_right(starts, line - 1) - 1
+        ei = line - 1 - starts[ri]
+        rejections.append({"run": ri, "event_index": ei, "event": runs[ri][ei], "prefix": runs[ri][:ei + 1]})
+    bad = {x["run"] for x in rejections}
+    checked = sum(len(runs[i]) for i in range(len(runs)) if i not in bad) + sum(x["event_index"] for x in rejections)
+    return len(runs) - len(bad), rejections, checked, r.wall
+
+
 # ----------------------------------------------------------------------------- findings, verdicts
 
 def load_findings():
@@ -422,6 +457,7 @@ class Verdict:
         self.known = [f for f in load_findings().get("findings", []) if f["property"] == prop]
         self.violations = []      # (signature, what, replay_path)
         self.known_seen = {}      # signature -> count
+        self.more = {}            # further occurrences of already reported violations
 
     def report(self, signature, what, replay_obj):
         for f in self.known:
@@ -440,6 +476,13 @@ class Verdict:
         log("VIOLATION property=%s replay=%s" % (self.prop, path))
         log("  signature=%s  %s" % (signature, what))
         return True
+
+    def count(self, signature):
+        """a further occurrence of a signature already reported through report()"""
+        if signature in self.known_seen:
+            self.known_seen[signature] += 1
+        else:
+            self.more[signature] = self.more.get(signature, 0) + 1
 
     def exit_code(self):
         return 1 if self.violations else 0
